@@ -558,6 +558,8 @@ func (m *model) run(f *Frame, cx mctx) (ok, reverted bool, ret []byte) {
 			to = Codeless
 		case TgBadPrecompile:
 			to = BadPrecompile
+		case TgAbsent:
+			to = AbsentAddr
 		}
 		child := c.Child
 		if c.Target == TgSelf {
@@ -618,7 +620,7 @@ func (m *model) run(f *Frame, cx mctx) (ok, reverted bool, ret []byte) {
 
 // Addresses lists every address the scenario can touch (for state comparison).
 func (r *MResult) Addresses(s *Scn) []common.Address {
-	set := map[common.Address]bool{world.Origin: true, Codeless: true, Precompile: true, BadPrecompile: true}
+	set := map[common.Address]bool{world.Origin: true, Codeless: true, Precompile: true, BadPrecompile: true, AbsentAddr: true}
 	s.Walk(func(f *Frame, static bool, depth int, parent *Frame) { set[FrameAddr(f.ID)] = true })
 	for _, n := range r.Nodes {
 		if n.Created != (common.Address{}) {
